@@ -149,3 +149,15 @@ Proof.
   - destruct (to_sbx_correct a k v r Ha Hr E) as (s' & He' & ->). congruence.
   - unfold to_sbx in E. rewrite He in E. discriminate.
 Qed.
+
+(* the source in sandbox memory (D21) *)
+Lemma conv_cell_correct to from f :
+  in_range from (f 0%nat) = true -> n2_pair to from = false ->
+  conv_cell to from f = (if in_range to (f 0%nat) then Ok (f 0%nat) else Abort).
+Proof. intros A B. exact (conv_correct to from (f 0%nat) A B). Qed.
+Lemma conv_cell_reread_refuted :
+  let f := fun i : nat => match i with O => -32768 | _ => -32769 end in
+  (forall i, in_range IInt (f i) = true) /\
+  conv_cell_reread IShort f = Ok 32767 /\
+  conv_cell IShort IInt f = Ok (-32768) /\ conv IShort IInt (-32769) = Abort.
+Proof. split; [intros [|i]; reflexivity|]. vm_compute. repeat split. Qed.
